@@ -2,6 +2,8 @@ import GqlProofs.ParserBasics
 /-! Soundness of the parser model M w.r.t. the grammar S (C03): whatever an action of M returns is derivable,
 and the only thing it changes in the state is the position.  `SndN` for the actions that cannot raise the
 `bad` flag, `Snd` (under `σ'.bad = false`) for those that call `parseType`. -/
+set_option linter.unusedSimpArgs false
+
 namespace GqlModel.Parser
 open GqlModel GqlModel.Grammar
 
